@@ -143,7 +143,8 @@ def checkTable (B : Builder S T) (dsl : Dsl) (req : Ty) (G : TT S T) (progs : Li
   .list [ofBool (sub.1 && G.start == startOf B req), ofBool cl.1, ofNat sub.2,
     encOptNat (programs G fuel), encOptNat (programsFixed G fuel),
     .list (progs.map fun t => .list ([ofBool (PS.G.contains G t), ofBool (inLang G t),
-      ofBool (run (fun nt P => AList.lookup P (rows nt)) t (req.returns, B.init.1) B.init.2).isSome] ++ spec t))]
+      ofBool (run (fun nt P => AList.lookup P (rows nt)) t (req.returns, B.init.1) B.init.2).isSome] ++ spec t)),
+    encOptNat (programsR G fuel)]
 
 end Check
 
@@ -210,7 +211,8 @@ def handle : Sexp → Option Sexp
         ofBool (sub.1 && GI.start == raw.start), ofBool cl.1, encOptNat (programs GI fuel),
         ofBool (typedOK G1 && typedOK G2 && G1.start.1 == G2.start.1),
         .list (ps.map fun t => .list [ofBool (PS.G.contains G1 t), ofBool (PS.G.contains G2 t),
-          ofBool (PS.G.contains GI t), ofBool (inLang raw t)])])
+          ofBool (PS.G.contains GI t), ofBool (inLang raw t)]),
+        encOptNat (programsR GI fuel)])
   -- clean / programs of an arbitrary table with opaque states
   | .list [.atom "c13.clean", g, fuel] => do
       let G ← decTTg strC strC g
